@@ -1,7 +1,15 @@
 //! C21: REAL create transactions / CREATE / CREATE2 against a target that has code / nonce /
 //! storage, with the target's state held in each of the crate's database layers.
-//! request: `collision <kind> <spec_u8> <layer> <code 0|1> <nonce hex> <storage 0|1> <balance hex>`
+//! request: `collision <kind> <spec_u8> <layer> <code 0|1> <nonce hex> <storage 0|1> <balance hex> [<warmth>]`
 //!   kind  = tx | create | create2
+//!   warmth = how the target entered the journal before the creation reaches it (default `cold`):
+//!            cold (first touch) | al (tx access list, no keys) | alkey (access list with the key of the
+//!            stored slot) | alkey0 (access list with a key whose slot is zero) | balance | extcodesize
+//!            (the creator executes the opcode on the target first) | call (a CALL to it, no SLOAD) |
+//!            subrevert (a sub-call BALANCEs it and halts: stays in the journal's map, cold again) |
+//!            retry (create2 only: the same CREATE2 twice in one transaction, init code INVALID; the
+//!            reply is about the second attempt and requires the first to have ended the same way).
+//!            tx takes cold / al / alkey / alkey0 only; an access list before Berlin is `evm-error`.
 //!   layer = direct (generated map db, has_storage implemented) | wrapref | box | mutref | components
 //!           | cache (CacheDB over the map db) | state (State over it) | statecache (State over CacheDB over it)
 //!           | inserted (InMemoryDB with insert_account_info / insert_account_storage)
@@ -16,7 +24,8 @@ use revm::db::{CacheDB, InMemoryDB, WrapDatabaseRef};
 use revm::interpreter::{CreateInputs, CreateOutcome, InstructionResult};
 use revm::primitives::db::DatabaseComponents;
 use revm::primitives::{
-    keccak256, AccountInfo, Address, Bytecode, Bytes, ExecutionResult, SpecId, TxKind, B256, KECCAK_EMPTY, U256,
+    keccak256, AccessListItem, AccountInfo, Address, Bytecode, Bytes, ExecutionResult, SpecId, TxKind, B256, KECCAK_EMPTY,
+    U256,
 };
 use revm::{inspector_handle_register, Database, Evm, EvmContext, Inspector};
 
@@ -32,6 +41,23 @@ impl<DB: Database> Inspector<DB> for Rec {
 }
 
 const GAS_LIMIT: u64 = 1_000_000;
+/// the second CREATE2 of `retry` needs 32000 gas out of the 1/64 the first one leaves
+const GAS_LIMIT_RETRY: u64 = 10_000_000;
+fn gas_limit(warmth: &str) -> u64 {
+    if warmth == "retry" { GAS_LIMIT_RETRY } else { GAS_LIMIT }
+}
+/// the contract of `subrevert`: BALANCE(target), then INVALID
+fn helper() -> Address {
+    Address::with_last_byte(0xC1)
+}
+pub const WARMTHS: &[&str] = &["cold", "al", "alkey", "alkey0", "balance", "extcodesize", "call", "subrevert", "retry"];
+fn warmth_applies(kind: &str, warmth: &str) -> bool {
+    match warmth {
+        "cold" | "al" | "alkey" | "alkey0" => true,
+        "retry" => kind == "create2",
+        _ => kind != "tx",
+    }
+}
 fn caller() -> Address {
     Address::with_last_byte(0x99)
 }
@@ -41,13 +67,43 @@ fn creator() -> Address {
 const SALT: u8 = 0x2a;
 const SLOT: u64 = 1;
 
-fn creator_code(kind: &str, init: u8) -> Vec<u8> {
+/// CALL(gas 10000, to, value 0, no data); POP
+fn call_seq(to: Address) -> Vec<u8> {
+    let mut c = vec![0x60, 0x00, 0x60, 0x00, 0x60, 0x00, 0x60, 0x00, 0x60, 0x00, 0x73];
+    c.extend(to.as_slice());
+    c.extend([0x61, 0x27, 0x10, 0xf1, 0x50]);
+    c
+}
+fn helper_code(target: Address) -> Vec<u8> {
+    let mut c = vec![0x73];
+    c.extend(target.as_slice());
+    c.extend([0x31, 0x50, 0xfe]);
+    c
+}
+
+fn creator_code(kind: &str, init: u8, warmth: &str, target: Address) -> Vec<u8> {
     let mut c = vec![0x60, init, 0x60, 0x00, 0x53];
-    if kind == "create2" {
-        c.extend([0x60, SALT]);
+    match warmth {
+        "balance" | "extcodesize" => {
+            c.push(0x73);
+            c.extend(target.as_slice());
+            c.extend([if warmth == "balance" { 0x31 } else { 0x3b }, 0x50]);
+        }
+        "call" => c.extend(call_seq(target)),
+        "subrevert" => c.extend(call_seq(helper())),
+        _ => {}
     }
-    c.extend([0x60, 0x01, 0x60, 0x00, 0x60, 0x01]);
-    c.push(if kind == "create2" { 0xf5 } else { 0xf0 });
+    let attempts = if warmth == "retry" { 2 } else { 1 };
+    for i in 0..attempts {
+        if kind == "create2" {
+            c.extend([0x60, SALT]);
+        }
+        c.extend([0x60, 0x01, 0x60, 0x00, 0x60, 0x01]);
+        c.push(if kind == "create2" { 0xf5 } else { 0xf0 });
+        if i + 1 < attempts {
+            c.push(0x50);
+        }
+    }
     c.extend([0x60, 0x00, 0x55, 0x00]);
     c
 }
@@ -81,10 +137,22 @@ impl Pre {
     }
 }
 
-fn base_accounts(kind: &str, init: u8) -> Vec<(Address, AccountInfo)> {
+fn base_accounts(kind: &str, init: u8, warmth: &str) -> Vec<(Address, AccountInfo)> {
     let mut v = vec![(caller(), AccountInfo { balance: U256::from(1u64 << 60), ..Default::default() })];
+    if warmth == "subrevert" {
+        let code = helper_code(target_addr(kind, init));
+        v.push((
+            helper(),
+            AccountInfo {
+                balance: U256::ZERO,
+                nonce: 1,
+                code_hash: keccak256(&code),
+                code: Some(Bytecode::new_legacy(Bytes::from(code))),
+            },
+        ));
+    }
     if kind != "tx" {
-        let code = creator_code(kind, init);
+        let code = creator_code(kind, init, warmth, target_addr(kind, init));
         v.push((
             creator(),
             AccountInfo {
@@ -98,9 +166,9 @@ fn base_accounts(kind: &str, init: u8) -> Vec<(Address, AccountInfo)> {
     v
 }
 
-fn map_db(kind: &str, init: u8, target: Address, pre: Option<Pre>) -> MapDb {
+fn map_db(kind: &str, init: u8, warmth: &str, target: Address, pre: Option<Pre>) -> MapDb {
     let mut m = MapDb::default();
-    for (a, i) in base_accounts(kind, init) {
+    for (a, i) in base_accounts(kind, init, warmth) {
         if let Some(c) = &i.code {
             m.codes.insert(i.code_hash, c.clone());
         }
@@ -126,7 +194,15 @@ struct RunOut {
     changed: bool,
 }
 
-fn run_evm<DB: Database>(db: DB, kind: &str, init: u8, spec: SpecId, target: Address, pre: Pre) -> Result<RunOut, String> {
+fn run_evm<DB: Database>(
+    db: DB,
+    kind: &str,
+    init: u8,
+    warmth: &str,
+    spec: SpecId,
+    target: Address,
+    pre: Pre,
+) -> Result<RunOut, String> {
     let mut evm = Evm::builder()
         .with_db(db)
         .with_external_context(Rec::default())
@@ -134,7 +210,14 @@ fn run_evm<DB: Database>(db: DB, kind: &str, init: u8, spec: SpecId, target: Add
         .append_handler_register(inspector_handle_register)
         .modify_tx_env(|tx| {
             tx.caller = caller();
-            tx.gas_limit = GAS_LIMIT;
+            tx.gas_limit = gas_limit(warmth);
+            let key = |k: u64| B256::from(U256::from(k));
+            match warmth {
+                "al" => tx.access_list = vec![AccessListItem { address: target, storage_keys: vec![] }],
+                "alkey" => tx.access_list = vec![AccessListItem { address: target, storage_keys: vec![key(SLOT)] }],
+                "alkey0" => tx.access_list = vec![AccessListItem { address: target, storage_keys: vec![key(SLOT + 1)] }],
+                _ => {}
+            }
             if kind == "tx" {
                 tx.transact_to = TxKind::Create;
                 tx.data = Bytes::from(vec![init]);
@@ -154,12 +237,26 @@ fn run_evm<DB: Database>(db: DB, kind: &str, init: u8, spec: SpecId, target: Add
         ExecutionResult::Halt { gas_used, .. } => *gas_used,
     };
     let recs = &evm.context.external.results;
-    let class = match recs.as_slice() {
-        [InstructionResult::CreateCollision] => "collision".to_string(),
-        [InstructionResult::Return] | [InstructionResult::Stop] => "created".to_string(),
-        [r] => format!("other:{:?}", r),
-        l => format!("other:{}-create-ends", l.len()),
+    let class_of = |r: &InstructionResult| match r {
+        InstructionResult::CreateCollision => "collision".to_string(),
+        InstructionResult::Return | InstructionResult::Stop => "created".to_string(),
+        r => format!("other:{:?}", r),
     };
+    let class = match (warmth, recs.as_slice()) {
+        ("retry", [first, second]) => {
+            if class_of(first) == class_of(second) {
+                class_of(second)
+            } else {
+                format!("other:retry-differs-{:?}-then-{:?}", first, second)
+            }
+        }
+        ("retry", l) => format!("other:{}-create-ends", l.len()),
+        (_, [r]) => class_of(r),
+        (_, l) => format!("other:{}-create-ends", l.len()),
+    };
+    // a CALL to the target touches it (nothing else before the creation does); before Tangerine a
+    // collision takes ALL gas of the creator, whose frame then fails and takes the touch back
+    let expect_touched = warmth == "call" && matches!(rs.result, ExecutionResult::Success { .. });
     let pre_info = pre.info().unwrap_or(AccountInfo { code: None, ..Default::default() });
     let changed = match rs.state.get(&target) {
         None => false,
@@ -169,7 +266,7 @@ fn run_evm<DB: Database>(db: DB, kind: &str, init: u8, spec: SpecId, target: Add
                 || acc.info.code_hash != pre_info.code_hash
                 || acc.is_created()
                 || acc.is_selfdestructed()
-                || acc.is_touched()
+                || acc.is_touched() != expect_touched
                 || acc
                     .storage
                     .get(&U256::from(SLOT))
@@ -180,28 +277,40 @@ fn run_evm<DB: Database>(db: DB, kind: &str, init: u8, spec: SpecId, target: Add
     Ok(RunOut { class, gas_used, changed })
 }
 
-fn run_layer(layer: &str, kind: &str, init: u8, spec: SpecId, pre: Pre, clean: bool) -> Result<RunOut, String> {
+fn run_layer(layer: &str, kind: &str, init: u8, warmth: &str, spec: SpecId, pre: Pre, clean: bool) -> Result<RunOut, String> {
     let target = target_addr(kind, init);
-    let p = if clean { None } else { Some(pre) };
-    let eff = if clean { Pre { code: false, nonce: 0, storage: false, balance: U256::ZERO } } else { pre };
-    let m = map_db(kind, init, target, p);
+    // the reference target: nothing there — except for `call`, whose gas before Spurious Dragon depends on
+    // whether the callee exists: there the reference keeps the existence of the real target (balance 1 only)
+    let clean_pre = if warmth == "call" && pre.info().is_some() {
+        Some(Pre { code: false, nonce: 0, storage: false, balance: U256::from(1) })
+    } else {
+        None
+    };
+    let p = if clean { clean_pre } else { Some(pre) };
+    let eff = if clean {
+        clean_pre.unwrap_or(Pre { code: false, nonce: 0, storage: false, balance: U256::ZERO })
+    } else {
+        pre
+    };
+    let m = map_db(kind, init, warmth, target, p);
+    let w = warmth;
     match layer {
-        "direct" => run_evm(m, kind, init, spec, target, eff),
-        "wrapref" => run_evm(WrapDatabaseRef(m), kind, init, spec, target, eff),
-        "box" => run_evm(Box::new(m), kind, init, spec, target, eff),
+        "direct" => run_evm(m, kind, init, w, spec, target, eff),
+        "wrapref" => run_evm(WrapDatabaseRef(m), kind, init, w, spec, target, eff),
+        "box" => run_evm(Box::new(m), kind, init, w, spec, target, eff),
         "mutref" => {
             let mut m = m;
-            run_evm(&mut m, kind, init, spec, target, eff)
+            run_evm(&mut m, kind, init, w, spec, target, eff)
         }
-        "components" => run_evm(DatabaseComponents { state: m.clone(), block_hash: m }, kind, init, spec, target, eff),
-        "cache" => run_evm(CacheDB::new(m), kind, init, spec, target, eff),
-        "state" => run_evm(revm::db::State::builder().with_database(m).build(), kind, init, spec, target, eff),
+        "components" => run_evm(DatabaseComponents { state: m.clone(), block_hash: m }, kind, init, w, spec, target, eff),
+        "cache" => run_evm(CacheDB::new(m), kind, init, w, spec, target, eff),
+        "state" => run_evm(revm::db::State::builder().with_database(m).build(), kind, init, w, spec, target, eff),
         "statecache" => {
-            run_evm(revm::db::State::builder().with_database(CacheDB::new(m)).build(), kind, init, spec, target, eff)
+            run_evm(revm::db::State::builder().with_database(CacheDB::new(m)).build(), kind, init, w, spec, target, eff)
         }
         "inserted" => {
             let mut db = InMemoryDB::default();
-            for (a, i) in base_accounts(kind, init) {
+            for (a, i) in base_accounts(kind, init, warmth) {
                 db.insert_account_info(a, i);
             }
             if let Some(p) = p {
@@ -212,7 +321,7 @@ fn run_layer(layer: &str, kind: &str, init: u8, spec: SpecId, pre: Pre, clean: b
                     db.insert_account_storage(target, U256::from(SLOT), U256::from(1)).unwrap();
                 }
             }
-            run_evm(db, kind, init, spec, target, eff)
+            run_evm(db, kind, init, w, spec, target, eff)
         }
         _ => Err("bad-op".into()),
     }
@@ -224,11 +333,15 @@ pub const KINDS: &[&str] = &["tx", "create", "create2"];
 
 pub fn exec_line(line: &str) -> String {
     let t: Vec<&str> = line.split(' ').collect();
-    if t.len() != 8 || t[0] != "collision" {
+    if !(t.len() == 8 || t.len() == 9) || t[0] != "collision" {
         return "bad-op".into();
     }
+    let warmth = if t.len() == 9 { t[8].to_string() } else { "cold".to_string() };
     let kind = t[1].to_string();
     if !KINDS.contains(&kind.as_str()) || !LAYERS.contains(&t[3]) {
+        return "bad-op".into();
+    }
+    if !WARMTHS.contains(&warmth.as_str()) || !warmth_applies(&kind, &warmth) {
         return "bad-op".into();
     }
     let Some(spec) = t[2].parse::<u8>().ok().and_then(SpecId::try_from_u8) else { return "bad-op".into() };
@@ -244,14 +357,16 @@ pub fn exec_line(line: &str) -> String {
     let Ok(balance) = U256::from_str_radix(t[7], 16) else { return "bad-op".into() };
     let pre = Pre { code, nonce, storage, balance };
     guarded(move || {
-        let r = match run_layer(&layer, &kind, 0x00, spec, pre, false) {
+        // `retry` runs the same CREATE2 twice: the init code must fail so that the address stays free
+        let init = if warmth == "retry" { 0xfe } else { 0x00 };
+        let r = match run_layer(&layer, &kind, init, &warmth, spec, pre, false) {
             Ok(r) => r,
             Err(e) => return e,
         };
         let allgas = if kind == "tx" {
-            r.gas_used == GAS_LIMIT
+            r.gas_used == gas_limit(&warmth)
         } else {
-            match run_layer(&layer, &kind, 0xfe, spec, pre, true) {
+            match run_layer(&layer, &kind, 0xfe, &warmth, spec, pre, true) {
                 Ok(reference) => reference.class == "other:InvalidFEOpcode" && r.gas_used == reference.gas_used,
                 Err(e) => return e,
             }
@@ -291,6 +406,48 @@ pub fn gen(seed: u64, n: usize) -> Vec<String> {
             }
         }
     }
+    // the warmth dimension. complete: kinds x layers x 2x2x2 pre-states x every way of becoming warm
+    // (rotating forks; access lists on Berlin and later, with every 5th one earlier = evm-error)
+    let spec_ok = |kind: &str, warmth: &str, s: u8, j: usize| {
+        (kind != "create2" || s >= SpecId::CONSTANTINOPLE as u8)
+            && (!warmth.starts_with("al") || s >= SpecId::BERLIN as u8 || j % 5 == 0)
+    };
+    let mut j = 0usize;
+    for kind in KINDS {
+        for layer in LAYERS {
+            for warmth in WARMTHS.iter().filter(|w| **w != "cold" && warmth_applies(kind, w)) {
+                for bits in 0..8u8 {
+                    j += 1;
+                    loop {
+                        let s = specs[i % specs.len()] as u8;
+                        i += 1;
+                        if spec_ok(kind, warmth, s, j) {
+                            v.push(format!(
+                                "collision {kind} {s} {layer} {} {} {} 0 {warmth}",
+                                bits & 1,
+                                (bits >> 1) & 1,
+                                (bits >> 2) & 1
+                            ));
+                            break;
+                        }
+                    }
+                }
+            }
+        }
+    }
+    // storage-only target, already warm: every kind x layer x way of becoming warm x every fork
+    for kind in KINDS {
+        for layer in LAYERS {
+            for warmth in WARMTHS.iter().filter(|w| **w != "cold" && warmth_applies(kind, w)) {
+                for s in &specs {
+                    let s = *s as u8;
+                    if spec_ok(kind, warmth, s, 1) {
+                        v.push(format!("collision {kind} {s} {layer} 0 0 1 0 {warmth}"));
+                    }
+                }
+            }
+        }
+    }
     // random
     for _ in 0..n {
         let kind = *rng.pick(KINDS);
@@ -298,12 +455,22 @@ pub fn gen(seed: u64, n: usize) -> Vec<String> {
         let s = *rng.pick(&specs) as u8;
         let nonce = match rng.below(4) { 0 | 1 => 0, 2 => 1, _ => u64::MAX };
         let bal = match rng.below(3) { 0 => U256::ZERO, 1 => U256::from(rng.below(100)), _ => U256::MAX - U256::from(rng.below(3)) };
-        v.push(format!("collision {kind} {s} {layer} {} {:x} {} {}", rng.below(2), nonce, rng.below(2), hx(bal)));
+        let line = format!("collision {kind} {s} {layer} {} {:x} {} {}", rng.below(2), nonce, rng.below(2), hx(bal));
+        if rng.chance(1, 3) {
+            v.push(line);
+        } else {
+            let ws: Vec<&&str> = WARMTHS.iter().filter(|w| warmth_applies(kind, w)).collect();
+            v.push(format!("{line} {}", rng.pick(&ws)));
+        }
     }
     // malformed
     v.push("collision tx 0 nowhere 0 0 0 0".into());
     v.push("collision create2 2 direct 0 0 1 0".into());
     v.push("collision eof 19 direct 0 0 1 0".into());
+    v.push("collision tx 17 direct 0 0 1 0 balance".into());
+    v.push("collision create 17 direct 0 0 1 0 retry".into());
+    v.push("collision create2 17 direct 0 0 1 0 lukewarm".into());
+    v.push("collision create2 17 direct 0 0 1 0 cold extra".into());
     v
 }
 
@@ -312,7 +479,8 @@ pub fn run(seed: u64, n: usize, replay: Option<Vec<String>>, out: &mut Out) {
     for l in lines {
         let r = exec_line(&l);
         let t: Vec<&str> = l.split(' ').collect();
-        if t.len() == 8 {
+        if t.len() == 8 || t.len() == 9 {
+            out.count(&format!("warmth:{}", t.get(8).unwrap_or(&"cold")));
             out.count(&format!("kind:{}", t[1]));
             out.count(&format!("layer:{}", t[3]));
             out.count(&format!("pre:code{}nonce{}storage{}", t[4], if t[5] == "0" { "0" } else { "+" }, t[6]));
